@@ -165,3 +165,71 @@ package fuse
 //@ func errNotEOF
 //@   call Error#1 bind msg = $ret0
 //@   ensures [only-plain-eof-is-not-an-error] result == (err != nil && msg_set && msg != "EOF")
+
+// ---- mutable mount: POSIX answers of the namespace operations (C18) ------------------------------------
+// name resolution asks the tree for exactly (parent, name)
+//@ func lookup
+//@   call formLookupKey#1 assert [parent-and-name] $0 == p && $1 == c
+//@   call formLookupKey#1 bind key = $ret0
+//@   call Get#1 assert [that-key] key_set && $1 == key
+//@   call Get#1 bind hit = $ret1
+//@   ensures [found-as-answered] hit_set && found == hit && key_set && lk == key
+
+// creating under a missing parent is ENOENT, under a non-directory ENOTDIR, over a taken name EEXIST
+//@ func (*fsMutable).preCreateCheck
+//@   requires fs != nil
+//@   call formKey#1 assert [parent-inode] $0 == parentInode
+//@   call Get#1 bind pfound = $ret1
+//@   call IsDir#1 bind pdir = $ret0
+//@   call Get#2 assert [the-new-name] $1 == lk
+//@   call Get#2 bind taken = $ret1
+//@   ensures [missing-parent-is-enoent] pfound_set && !pfound ==> result == iface(jfuse.ENOENT)
+//@   ensures [file-parent-is-enotdir] pfound_set && pfound && pdir_set && !pdir ==> result == iface(jfuse.ENOTDIR)
+//@   ensures [taken-name-is-eexist] taken_set && taken ==> result == iface(jfuse.EEXIST)
+//@   ensures [otherwise-allowed] result == nil ==> pfound_set && pfound && pdir_set && pdir && taken_set && !taken
+
+// removing a name: ENOENT when the parent or the name is missing, ENOTEMPTY for a directory that still
+// has children; otherwise exactly that name goes: its lookup key and its entry in the parent's listing
+//@ func (*fsMutable).deleteNSEntry
+//@   requires fs != nil
+//@   call formKey#1 assert [parent-inode] $0 == p
+//@   call Get#1 bind pfound = $ret1
+//@   call lookup#1 assert [parent-and-name] $p == p && $c == c
+//@   call lookup#1 bind cfound = $ret1
+//@   call lookup#1 bind clk = $ret2
+//@   call lookup#1 bind cle = $ret0
+//@   call Delete#1 assert [that-name] clk_set && $1 == clk
+//@   call delete#2 assert [that-child-in-the-parent-listing] cle_set && $1 == cle.iNode
+//@   call delete#1 assert [own-listing-of-the-removed-directory] cle_set && $1 == cle.iNode
+//@   ensures [missing-parent-is-enoent] pfound_set && !pfound ==> result == iface(jfuse.ENOENT)
+//@   ensures [missing-name-is-enoent] cfound_set && !cfound ==> result == iface(jfuse.ENOENT)
+//@   only Delete 1
+//@   only delete 2
+
+// a created node gets a fresh inode number, is registered under (parent, name) with that number and is
+// listed once in its parent under that name, number and type
+//@ func (*fsMutable).createNode
+//@   requires fs != nil
+//@   call allocINode#1 bind ino = $ret0
+//@   call Insert#1 assert [name-to-inode] (lk != nil ==> $1 == lk) && as($2, lookupEntry).iNode == iNodeID && (!isRoot ==> ino_set && iNodeID == ino)
+//@   call insertReadDirEntry#1 assert [listed-in-parent] !isRoot && $id == parentINode && $dirEnt.Inode == iNodeID && $dirEnt.Name == childName && $dirEnt.Type == nodeType
+//@   call formKey#1 assert [node-by-its-inode] $0 == iNodeID
+
+//@ func (*fsMutable).insertReadDirEntry
+//@   requires fs != nil && dirEnt != nil
+
+//@ func (*fsMutable).CreateFile
+//@   requires fs != nil && op != nil
+//@   call formLookupKey#1 assert [key] $0 == op.Parent && $1 == op.Name
+//@   call formLookupKey#1 bind key = $ret0
+//@   call preCreateCheck#1 assert [parent-and-name] $parentInode == op.Parent && key_set && $lk == key
+//@   call preCreateCheck#1 bind pc = $ret0
+//@   call createNode#1 assert [file-under-parent] pc_set && pc == nil && $parentINode == op.Parent && $childName == op.Name && $nodeType == fuseutil.DT_File && key_set && $lk == key && !$isRoot
+//@   ensures [refused-as-checked] pc_set && pc != nil ==> err == pc
+
+//@ func (*fsMutable).RmDir
+//@   requires fs != nil && op != nil
+//@   call deleteNSEntry#1 assert [parent-and-name] $p == op.Parent && $c == op.Name
+//@ func (*fsMutable).Unlink
+//@   requires fs != nil && op != nil
+//@   call deleteNSEntry#1 assert [parent-and-name] $p == op.Parent && $c == op.Name
